@@ -4,6 +4,7 @@ import (
 	"bytes"
 	"encoding/json"
 	"fmt"
+	"io"
 	"reflect"
 	"strings"
 
@@ -13,6 +14,7 @@ import (
 	"github.com/kstenerud/go-concise-encoding/iterator"
 	"github.com/kstenerud/go-concise-encoding/rules"
 	"verif/harness/internal/codec"
+	"verif/harness/internal/env"
 	"verif/harness/internal/ev"
 	"verif/harness/internal/fx"
 	"verif/harness/internal/gen"
@@ -277,6 +279,48 @@ func c18Case(c *fx.Ctx, g gen.GV, level int, f codec.Format, recursion bool) {
 }
 
 // containsMap: documents of values containing Go maps depend on map iteration order and are not compared byte for byte.
+// c18FailingWriter: a marshal that fails part-way must leave the value untouched too. The destination is a scripted
+// writer that fails (sticky) at Write call k, for every k up to the number of calls a successful marshal makes (capped),
+// once accepting none and once accepting half of that call's bytes.
+func c18FailingWriter(c *fx.Ctx, g gen.GV, level int, f codec.Format) {
+	cfg := configuration.New()
+	marshal := func(w io.Writer) error {
+		return safeCall(func() error {
+			if f == codec.CBE {
+				return cbe.NewMarshaler(cfg).Marshal(g.V, w)
+			}
+			return cte.NewMarshaler(cfg).Marshal(g.V, w)
+		})
+	}
+	before := snapshot(g.V)
+	probe := &env.Writer{}
+	if marshal(probe) != nil {
+		return
+	}
+	calls := probe.Calls
+	if calls > 48 {
+		calls = 48
+		c.Add("failing_writer_capped_values", 1)
+	}
+	for k := 0; k < calls; k++ {
+		for _, part := range []int{0, 1 << 20} {
+			w := &env.Writer{Script: env.Script{At: map[int]env.Answer{k: {Kind: env.Fail, K: part, Sticky: true}}}}
+			if part != 0 {
+				w.Script.At[k] = env.Answer{Kind: env.Fail, K: 3, Sticky: true}
+			}
+			err := marshal(w)
+			c.Add("evaluations", 1)
+			c.Add("failing_writer_runs", 1)
+			if after := snapshot(g.V); after != before {
+				c.Violation(fmt.Sprintf("value-modified-by-failed-marshal:%s:%s", f, g.Class),
+					fmt.Sprintf("marshaling %s to %s into a writer that fails at Write call %d (err=%v) modified the value: before %s after %s", g.Name, f, k, err, clipS(diffAround(before, after)), clipS(diffAround(after, before))),
+					gvW(g, level, f.String(), "failing-writer"))
+				return
+			}
+		}
+	}
+}
+
 func containsMap(t reflect.Type) bool {
 	if t == nil {
 		return false
@@ -427,6 +471,7 @@ func init() {
 				for _, f := range []codec.Format{codec.CBE, codec.CTE} {
 					c18Case(c, g, level, f, false)
 					c18Case(c, g, level, f, true)
+					c18FailingWriter(c, g, level, f)
 				}
 			}
 		},
@@ -435,9 +480,13 @@ func init() {
 			if err := json.Unmarshal(raw, &w); err != nil {
 				return err.Error()
 			}
-			for _, g := range append(gen.GoValues(w.Level), gen.BigPointerValues()...) {
+			for _, g := range append(append(gen.GoValues(w.Level), gen.BigPointerValues()...), gen.ExtremeBigValues()...) {
 				if g.Name == w.Name {
 					c := fx.NewScratchCtx()
+					if w.Config == "failing-writer" {
+						c18FailingWriter(c, g, w.Level, fmtOf(w.Format))
+						return c.FirstViolation()
+					}
 					c18Case(c, g, w.Level, fmtOf(w.Format), w.Config == "recursion")
 					return c.FirstViolation()
 				}
